@@ -13,6 +13,7 @@
 From Coq Require Import List NArith ZArith Bool Arith Lia.
 From RecordUpdate Require Import RecordUpdate.
 From JV Require Import Bytes Msg SrvModel SrvLemmas SrvBasics SrvC10 SrvC08 SrvC08b SrvC08c SrvC08q SrvC08r SrvC08s SrvC08u SrvC08y SrvC08n SrvC08w SrvC08v SrvC08m.
+From JV Require Import SrvEventually SrvProgress SrvRestartSim.
 Import ListNotations.
 
 (** 1. No interleaving makes the process panic: none of the model's crash outcomes (CrNilChannel = deliver
@@ -379,6 +380,70 @@ Theorem c08_eventually_terminates : forall c s, reach c s -> forall pick : state
 Proof. exact eventually_terminates. Qed.
 Print Assumptions c08_eventually_terminates.
 
+(* 'eventually' as a predicate of the last states of the maximal release-only runs (srv/SrvEventually.v): P holds in the
+   last state of every release-only run from s that cannot be extended (= that has reached a quiescent state); such
+   runs exist, and none is longer than mu_rel s *)
+Theorem c08_eventually_spec : forall s P, eventually s P <->
+  (exists tr s' oss, run s tr = Some (s', oss) /\ Forall (fun l => is_rel l = true) tr /\ length tr <= mu_rel s /\
+     quiescent s' = true) /\
+  (forall tr s' oss, run s tr = Some (s', oss) -> Forall (fun l => is_rel l = true) tr ->
+     length tr <= mu_rel s /\ (quiescent s' = true -> P tr s' oss)).
+Proof. exact eventually_spec. Qed.
+Print Assumptions c08_eventually_spec.
+
+Theorem c08_quiescent_iff_maximal : forall s, quiescent s = true <-> forall l, is_rel l = true -> step s l = None.
+Proof. exact quiescent_iff_maximal. Qed.
+Print Assumptions c08_quiescent_iff_maximal.
+
+(* every pending WaitStatus call eventually returns, with the status of the first cause.  [s0 -l-> s1] is the window
+   that stopped the server, tr1 any later history without a restart, leading to s; from there the goroutines run on
+   their own.  In the last state s' of every maximal release-only run: the server is still stopped with the cause k of
+   the stopping window; every WaitStatus return of the run reports k; returns of the run + calls still pending =
+   calls pending in s; and once no handler is executing and the reader's Recv has returned (no assumption is needed
+   on a channel whose Close unblocks Recv), every pending call has returned and every goroutine has exited.
+   count_waitret os = the number of OWaitRet observations in os. *)
+Theorem c08_waits_returned_spec : forall c s0 l s tr s' oss, c08_waits_returned c s0 l s tr s' oss <->
+  exists k, stop_cause s0 l k /\ stop_err s' = Some k /\ running s' = false /\
+    (forall os r, In os oss -> In (OWaitRet r) os -> r = Some k) /\
+    count_waitret (concat oss) + waits s' = waits s /\
+    ((forall j t, nth_error (tasks s') j = Some t -> t_st t <> TRunning) ->
+     (rd s' = RExited \/ rd s' = RNone \/ cf_unblock c = true) -> 0 < cf_K c ->
+     waits s' = 0 /\ count_waitret (concat oss) = waits s /\ wg s' = 0 /\ all_done s').
+Proof. exact (fun c s0 l s tr s' oss => conj (fun x => x) (fun x => x)). Qed.
+Print Assumptions c08_waits_returned_spec.
+
+Theorem c08_count_waitret_spec : forall os,
+  count_waitret os = length (filter (fun o => match o with OWaitRet _ => true | _ => false end) os).
+Proof. exact count_waitret_spec. Qed.
+Print Assumptions c08_count_waitret_spec.
+
+Theorem c08_waitstatus_eventually_returns : forall c s0 l s1 os1 tr1 s oss1, reach c s0 -> step s0 l = Some (s1, os1) ->
+  running s0 = true -> running s1 = false -> run s1 tr1 = Some (s, oss1) -> ~ In LStart tr1 ->
+  eventually s (c08_waits_returned c s0 l s).
+Proof. exact SrvEventually.c08_waitstatus_eventually_returns. Qed.
+Print Assumptions c08_waitstatus_eventually_returns.
+
+(* the same with the handlers returning (srv/SrvProgress.v; eventually_prog, is_prog, at_rest, mu_prog are spelled out in
+   props/C01.v section 14): in the last state of every maximal PROGRESS run (release labels and handler returns only)
+   from s - reached within mu_prog s windows - no hypothesis on the handlers is left: once the reader's Recv has
+   returned (nothing to assume on a channel whose Close unblocks Recv) every WaitStatus call that was pending has
+   returned with the cause of the stop and every goroutine has exited *)
+Theorem c08_all_waits_returned_spec : forall c s0 l s tr s' oss, c08_all_waits_returned c s0 l s tr s' oss <->
+  exists k, stop_cause s0 l k /\ stop_err s' = Some k /\ running s' = false /\
+    (forall os r, In os oss -> In (OWaitRet r) os -> r = Some k) /\
+    count_waitret (concat oss) + waits s' = waits s /\
+    ((rd s' = RExited \/ rd s' = RNone \/ cf_unblock c = true) ->
+     waits s' = 0 /\ count_waitret (concat oss) = waits s /\ wg s' = 0 /\ all_done s').
+Proof. exact (fun c s0 l s tr s' oss => conj (fun x => x) (fun x => x)). Qed.
+Print Assumptions c08_all_waits_returned_spec.
+
+Theorem c08_waitstatus_eventually_all_return : forall c s0 l s1 os1 tr1 s oss1, reach c s0 ->
+  step s0 l = Some (s1, os1) -> running s0 = true -> running s1 = false -> run s1 tr1 = Some (s, oss1) ->
+  ~ In LStart tr1 -> 0 < cf_K c ->
+  eventually_prog s (c08_all_waits_returned c s0 l s).
+Proof. exact SrvProgress.c08_waitstatus_eventually_all_return. Qed.
+Print Assumptions c08_waitstatus_eventually_all_return.
+
 (* the measure and the release labels, spelled out; every label [enabled_rel] offers is a release label *)
 Theorem c08_mu_rel_spec : forall s, mu_rel s =
   wsum tw (tasks s) +
@@ -423,28 +488,137 @@ Theorem c08_terminates_K0_refuted :
 Proof. exact SrvC08q.c08_terminates_K0_refuted. Qed.
 Print Assumptions c08_terminates_K0_refuted.
 
-(** 8. Restart.  PARTIAL: the field-wise characterisation and the state equation below are proved; the
-    simulation (a relation [fresh_equiv] between the runs of the restarted server and the runs of a fresh
-    one, with task/unit/callback indices shifted by the lengths of the old lists and callback ids renamed)
-    is NOT proved.  What is proved: Start is enabled, produces no observation, and the restarted state equals
-    the freshly started initial state on every field except the history (finished tasks and units, dead
-    callbacks and their counter, start/close counters) and what the environment has pending.  The restarted
-    state is reachable, so every theorem of this file applies to the restarted server. *)
-Theorem c08_restart_fresh_partial : forall c s, reach c s -> wg s = 0 -> running s = false ->
+(** 8. Restart.  Start is enabled, produces no observation, and the restarted state equals the freshly started initial
+    state on every field except the history (finished tasks and units, dead callbacks and their counter, start/close
+    counters) and what the environment has pending.  The restarted state is reachable, so every theorem of this file
+    applies to the restarted server.  Below (the c08_restart_simulation theorems) the SIMULATION: the runs of the restarted
+    server are exactly the runs of a freshly started one, with task/unit indices shifted, and the same observations. *)
+Theorem c08_restart_fresh : forall c s, reach c s -> wg s = 0 -> running s = false ->
   step s LStart = Some (started s, []) /\ fresh_fields c (started s) /\
   tasks (started s) = tasks s /\ units (started s) = units s /\ cbs (started s) = cbs s /\
   call_id (started s) = call_id s /\ starts (started s) = S (starts s) /\ closes (started s) = closes s.
 Proof. exact restart_fresh. Qed.
-Print Assumptions c08_restart_fresh_partial.
+Print Assumptions c08_restart_fresh.
 
-Theorem c08_restart_state_partial : forall c s, reach c s -> wg s = 0 -> running s = false ->
+Theorem c08_restart_state : forall c s, reach c s -> wg s = 0 -> running s = false ->
   started s = started (init_of c)
                 <| tasks := tasks s |> <| units := units s |>
                 <| calls := calls s |> <| call_id := call_id s |> <| cbs := cbs s |>
                 <| starts := S (starts s) |> <| closes := closes s |>
                 <| ops := ops s |> <| waits := waits s |> <| ended := ended s |> <| send_fail := send_fail s |>.
 Proof. exact restart_fresh_eq. Qed.
-Print Assumptions c08_restart_state_partial.
+Print Assumptions c08_restart_state.
+
+(* The simulation (srv/SrvRestartSim.v).
+   fresh_of c s = the freshly started server with the same pending environment calls as s (API operations not yet
+   run, caller contexts that ended early, the state of the transport); it is REACHABLE, so every theorem of the
+   property files applies to it.
+   rs_emb s x = the state x of that fresh server placed behind the history of s: the (finished) tasks and units of s
+   come first, every task index of x (sem_wait, used) is shifted by |tasks s|, every unit index (t_unit, dp) by
+   |units s|, the start/close counters are added; every other field is that of x.
+   rs_label s l = the label l with its task index (LRelAcquire, LRelHandled) or unit index (LRelDeliver) shifted
+   likewise; old_label: a label that addresses a task or unit of the history. *)
+Theorem c08_fresh_of_spec : forall c s,
+  fresh_of c s = started (init_of c) <| ops := ops s |> <| ended := ended s |> <| send_fail := send_fail s |>.
+Proof. exact fresh_of_spec. Qed.
+Print Assumptions c08_fresh_of_spec.
+
+Theorem c08_rs_emb_spec : forall s x,
+  tasks (rs_emb s x) = tasks s ++ map (fun t => mkTask (length (units s) + t_unit t) (t_id t) (t_method t) (t_params t)
+                                               (t_pre t) (t_hasctx t) (t_builtin t) (t_cancelled t) (t_st t)) (tasks x) /\
+  units (rs_emb s x) = units s ++ units x /\
+  sem_wait (rs_emb s x) = map (Nat.add (length (tasks s))) (sem_wait x) /\
+  used (rs_emb s x) = map (fun p => (fst p, length (tasks s) + snd p)) (used x) /\
+  dp (rs_emb s x) = match dp x with
+                    | DAtBarrier u => DAtBarrier (length (units s) + u)
+                    | DBarrierWait u => DBarrierWait (length (units s) + u)
+                    | d => d
+                    end /\
+  starts (rs_emb s x) = starts s + starts x /\ closes (rs_emb s x) = closes s + closes x /\
+  (c_K (rs_emb s x), c_push (rs_emb s x), c_builtin (rs_emb s x), c_methods (rs_emb s x), c_unblock (rs_emb s x)) =
+    (c_K x, c_push x, c_builtin x, c_methods x, c_unblock x) /\
+  (ch_in (rs_emb s x), send_fail (rs_emb s x), running (rs_emb s x), stop_err (rs_emb s x), work_closed (rs_emb s x)) =
+    (ch_in x, send_fail x, running x, stop_err x, work_closed x) /\
+  (rd (rs_emb s x), inq (rs_emb s x), nbar (rs_emb s x), sem_free (rs_emb s x), wg (rs_emb s x)) =
+    (rd x, inq x, nbar x, sem_free x, wg x) /\
+  (calls (rs_emb s x), call_id (rs_emb s x), cbs (rs_emb s x)) = (calls x, call_id x, cbs x) /\
+  (ops (rs_emb s x), waits (rs_emb s x), ended (rs_emb s x), crash (rs_emb s x)) = (ops x, waits x, ended x, crash x).
+Proof. exact rs_emb_spec. Qed.
+Print Assumptions c08_rs_emb_spec.
+
+Theorem c08_rs_label_spec : forall s l, rs_label s l =
+  match l with
+  | LRelAcquire k => LRelAcquire (length (tasks s) + k)
+  | LRelHandled k => LRelHandled (length (tasks s) + k)
+  | LRelDeliver u => LRelDeliver (length (units s) + u)
+  | x => x
+  end.
+Proof. exact rs_label_spec. Qed.
+Print Assumptions c08_rs_label_spec.
+
+Theorem c08_old_label_spec : forall ot ou l, old_label ot ou l = true <->
+  (exists k, (l = LRelAcquire k \/ l = LRelHandled k) /\ k < length ot) \/ (exists u, l = LRelDeliver u /\ u < length ou).
+Proof. exact old_label_spec. Qed.
+Print Assumptions c08_old_label_spec.
+
+(* without AllowPush (no Callback, no callback ids): from any stopped state with an empty wait group, Start is enabled;
+   the restarted state IS the embedding of the reachable fresh state; [step] commutes with the embedding for EVERY
+   label, with the same observations; the labels of the history are disabled and every other label is a shifted one
+   (so the simulation holds in both directions); hence the runs of the restarted server and of the fresh one
+   correspond one to one with identical observations *)
+Theorem c08_restart_simulation_nopush : forall c s, cf_push c = false -> reach c s -> wg s = 0 -> running s = false ->
+  step s LStart = Some (started s, []) /\ reach c (fresh_of c s) /\ started s = rs_emb s (fresh_of c s) /\
+  (forall x l, step (rs_emb s x) (rs_label s l) =
+               match step x l with Some (x', os) => Some (rs_emb s x', os) | None => None end) /\
+  (forall x l', old_label (tasks s) (units s) l' = true -> step (rs_emb s x) l' = None) /\
+  (forall l', old_label (tasks s) (units s) l' = false -> exists l, l' = rs_label s l) /\
+  (forall tr x oss, run (fresh_of c s) tr = Some (x, oss) ->
+     run (started s) (map (rs_label s) tr) = Some (rs_emb s x, oss)) /\
+  (forall tr' sr oss, run (started s) tr' = Some (sr, oss) ->
+     exists tr x, tr' = map (rs_label s) tr /\ run (fresh_of c s) tr = Some (x, oss) /\ sr = rs_emb s x).
+Proof. exact restart_simulation_nopush_full. Qed.
+Print Assumptions c08_restart_simulation_nopush.
+
+(* so every property of the observations of a fresh server holds of the restarted one, and conversely *)
+Theorem c08_restart_trace_properties_nopush : forall c s (P : list (list obs) -> Prop), cf_push c = false ->
+  reach c s -> wg s = 0 -> running s = false ->
+  ((forall tr x oss, run (fresh_of c s) tr = Some (x, oss) -> P oss) <->
+   (forall tr' sr oss, run (started s) tr' = Some (sr, oss) -> P oss)).
+Proof. exact restart_trace_properties_nopush. Qed.
+Print Assumptions c08_restart_trace_properties_nopush.
+
+(* PARTIAL for servers with AllowPush: the same simulation, proved when no Callback was registered by the earlier
+   incarnations (cbs s = [] and call_id s = 1; Notify is fine).  MISSING for the full statement: a history that
+   contains callback records.  It needs (i) the relation extended to the callback table (old records first, all
+   completed: not registered, watcher done or parked with nothing to do; indices of LRelCbWatch shifted), (ii) callback
+   ids renamed in the observations (OSendReq) AND in the reply members the environment feeds
+   (dec_of_nat (call_id s - 1 + k) in the restarted run for dec_of_nat k in the fresh one; replies bearing an id of an
+   old callback are unsolicited in the restarted run and have no counterpart bearing the same id in the fresh one when
+   that numeral is registered there: the correspondence of fed records is a relation, not a renaming function), and
+   (iii) the environment hypothesis that operation numbers are not reused across incarnations (LCbCtxEnd n finds the
+   first record with number n, which may be an old one). *)
+Theorem c08_restart_simulation_partial : forall c s, reach c s -> wg s = 0 -> running s = false ->
+  cbs s = [] -> call_id s = 1 ->
+  step s LStart = Some (started s, []) /\ reach c (fresh_of c s) /\ started s = rs_emb s (fresh_of c s) /\
+  (forall x l, step (rs_emb s x) (rs_label s l) =
+               match step x l with Some (x', os) => Some (rs_emb s x', os) | None => None end) /\
+  (forall x l', old_label (tasks s) (units s) l' = true -> step (rs_emb s x) l' = None) /\
+  (forall l', old_label (tasks s) (units s) l' = false -> exists l, l' = rs_label s l) /\
+  (forall tr x oss, run (fresh_of c s) tr = Some (x, oss) ->
+     run (started s) (map (rs_label s) tr) = Some (rs_emb s x, oss)) /\
+  (forall tr' sr oss, run (started s) tr' = Some (sr, oss) ->
+     exists tr x, tr' = map (rs_label s) tr /\ run (fresh_of c s) tr = Some (x, oss) /\ sr = rs_emb s x).
+Proof. exact restart_simulation. Qed.
+Print Assumptions c08_restart_simulation_partial.
+
+(* the general fact behind both: for ANY state x (any configuration) and any finished history (ot: finished tasks that
+   belong to the units ou; ou: finished units), [step] commutes with the embedding, for every label *)
+Theorem c08_embedding_commutes : forall ot ou ds dc,
+  (forall t, In t ot -> finished t = true /\ t_unit t < length ou) -> (forall u, In u ou -> u_st u = UFinished) ->
+  forall x l, step (emb ot ou ds dc x) (sh_label ot ou l) =
+              option_map (fun r => (emb ot ou ds dc (fst r), snd r)) (step x l).
+Proof. exact emb_step. Qed.
+Print Assumptions c08_embedding_commutes.
 
 (* [fresh_fields] spelled out *)
 Theorem c08_fresh_fields_spec : forall c s', fresh_fields c s' ->
